@@ -20,6 +20,8 @@ enum Header {
     V1(SocketAddr),
     V2(SocketAddr),
     V2Local,
+    /// `PROXY UNKNOWN`: a valid v1 header that announces no address (effective address = TCP peer)
+    V1Unknown,
     /// header cut into segments with pauses
     V1Split(SocketAddr, usize),
     V2Split(SocketAddr, usize),
@@ -37,6 +39,7 @@ impl Header {
             Header::V1(_) => "v1",
             Header::V2(_) => "v2",
             Header::V2Local => "v2-local",
+            Header::V1Unknown => "v1-unknown",
             Header::V1Split(..) => "v1-split",
             Header::V2Split(..) => "v2-split",
             Header::Missing => "missing",
@@ -45,7 +48,7 @@ impl Header {
         }
     }
     fn valid(&self) -> bool {
-        matches!(self, Header::NotUsed | Header::V1(_) | Header::V2(_) | Header::V2Local | Header::V1Split(..) | Header::V2Split(..))
+        matches!(self, Header::NotUsed | Header::V1(_) | Header::V2(_) | Header::V2Local | Header::V1Unknown | Header::V1Split(..) | Header::V2Split(..))
     }
 }
 
@@ -144,6 +147,15 @@ fn generate(cli: &Cli) -> Vec<Seq> {
             };
             conns.push(Conn { peer_ip, header, login: rng.chance(1, 6) });
         }
+        // health-check style connections (valid header without an address) are charged to the TCP
+        // peer like any other: limit + 2 of them in a row from one peer
+        if let Some((v1, v2)) = proxy {
+            let peer: IpAddr = "127.0.0.3".parse().expect("ip");
+            for k in 0..limit + 2 {
+                let header = if v2 && (!v1 || k % 2 == 0) { Header::V2Local } else { Header::V1Unknown };
+                conns.push(Conn { peer_ip: peer, header, login: false });
+            }
+        }
         let burst = if i % 4 != 3 {
             let mut b: SocketAddr = "192.0.2.99:5000".parse().expect("addr");
             b.set_port(rng.range(1024, 65000) as u16);
@@ -163,6 +175,7 @@ fn header_bytes(h: &Header, dst: SocketAddr, proxy: Option<(bool, bool)>) -> Vec
         Header::V1(s) => vec![tcp::proxy_v1(*s, dst)],
         Header::V2(s) => vec![tcp::proxy_v2(*s, dst)],
         Header::V2Local => vec![tcp::proxy_v2_local()],
+        Header::V1Unknown => vec![b"PROXY UNKNOWN\r\n".to_vec()],
         Header::V1Split(s, at) => {
             let b = tcp::proxy_v1(*s, dst);
             let at = (*at).min(b.len() - 1).max(1);
@@ -244,7 +257,7 @@ async fn run_seq(seq: &Seq) -> SeqOutcome {
         let served = if c.login { log.count("LoginSuccess") > 0 || log.count("EncryptionRequest") > 0 } else { log.count("StatusResponse") > 0 };
         end.kill();
         let effective: Option<SocketAddr> = match &c.header {
-            Header::NotUsed | Header::V2Local => Some(peer),
+            Header::NotUsed | Header::V2Local | Header::V1Unknown => Some(peer),
             Header::V1(s) | Header::V2(s) | Header::V1Split(s, _) | Header::V2Split(s, _) => Some(*s),
             _ => None,
         };
